@@ -47,6 +47,7 @@ pub fn to_ref_opts(o: &HtmlOpts) -> RefTreeOpts {
         context: o.context.clone(),
         context_allows_scripting: o.context_allows_scripting,
         discard_bom: o.tok.discard_bom,
+        fragment_form: o.fragment_form && o.context.is_some(),
     }
 }
 
@@ -60,6 +61,7 @@ fn opts_json(input: &str, o: &HtmlOpts) -> Value {
         "context_allows_scripting": o.context_allows_scripting,
         "allow_shadow": o.allow_shadow,
         "discard_bom": o.tok.discard_bom,
+        "fragment_form": o.fragment_form,
     })
 }
 
@@ -87,6 +89,7 @@ fn opts_from_json(v: &Value) -> (String, HtmlOpts) {
     o.context_allows_scripting = v["context_allows_scripting"].as_bool().unwrap_or(o.scripting);
     o.allow_shadow = v["allow_shadow"].as_bool().unwrap_or(false);
     o.tok.discard_bom = v["discard_bom"].as_bool().unwrap_or(true);
+    o.fragment_form = v["fragment_form"].as_bool().unwrap_or(false);
     (v["input"].as_str().unwrap_or("").to_string(), o)
 }
 
@@ -197,6 +200,9 @@ pub fn check_case(input: &str, o: &HtmlOpts, st: &mut Stats, merge_cov: bool) {
         None => st.count("kind:document"),
         Some(c) => {
             st.count("kind:fragment");
+            if o.fragment_form {
+                st.count("kind:fragment-with-form-element-pointer");
+            }
             st.observe("fragment_contexts", &format!("{}:{}", short_ns(&c.0), c.1));
         },
     }
@@ -355,6 +361,7 @@ fn random_opts(rng: &mut Rng, contexts: &[Ctx]) -> HtmlOpts {
         if rng.chance(1, 8) {
             o.context_allows_scripting = !o.scripting;
         }
+        o.fragment_form = rng.chance(1, 4);
     }
     o.iframe_srcdoc = rng.chance(1, 6);
     // The initial-mode option of a *document* parse is outside the specification's domain
